@@ -1218,6 +1218,14 @@ func (m *Monitor) checkInfo(op *Op, f *Fn, rec *OpRec) {
 			}
 			poolIDOf[idx], poolOfID[rec.InfoID] = rec.InfoID, idx
 		} else {
+			// every reflect-made function is backed by the same code (reflect's stub): the same ID, always
+			for prev := range dynIDSeen {
+				if prev != rec.InfoID {
+					m.violate("C18", "C18.id-unstable", "reflect-made functions (one backing function) got IDs %d and %d", prev, rec.InfoID)
+					break
+				}
+			}
+			m.stats["info.ids-checked"]++
 			dynIDSeen[rec.InfoID] = true
 			if _, ok := poolOfID[rec.InfoID]; ok {
 				m.violate("C18", "C18.id-collision", "a reflect-made function shares ID %d with %s", rec.InfoID, poolName(poolOfID[rec.InfoID]))
